@@ -292,6 +292,13 @@ def run(body, args):
             COUNT['reach'] += 1
         LAST['ok'], LAST['exc'] = True, None
         return True
+    if SYM:
+        # CrossHair's str.encode accepts lone surrogates, CPython refuses them: a failure is only believed
+        # on the branch where no string argument contains one (decided on the failing path only)
+        for v in args.values():
+            if isinstance(v, str) and not valid_text(v):
+                COUNT['rejected'] += 1
+                return True
     COUNT['failed'] += 1
     LAST['ok'] = False
     LAST['exc'] = None if exc is None else '%s: %s' % (type(exc).__name__, exc)
